@@ -50,7 +50,8 @@ def run_file(path, timeout=600):
 def run_shards(name, bodies, header=HEADER, jobs=16, timeout=900):
     """bodies: list of Coq source fragments (one shard each).  Returns list of
     lists of parsed Eval values (one inner list per shard), or raises."""
-    d = os.path.join(WORK, "run_" + name)
+    # one directory per process: concurrent runs of the same check must not share generated files
+    d = os.path.join(WORK, "run_%s_%d" % (name, os.getpid()))
     shutil.rmtree(d, ignore_errors=True)
     os.makedirs(d, exist_ok=True)
     paths = []
@@ -66,4 +67,5 @@ def run_shards(name, bodies, header=HEADER, jobs=16, timeout=900):
         if rc != 0:
             raise RuntimeError("coqc failed on %s:\n%s\n%s" % (p, so[-2000:], se[-4000:]))
         out.append([parse_value(v) for v in split_evals(so)])
+    shutil.rmtree(d, ignore_errors=True)      # generated sources and .vo files are not kept (failures keep them)
     return out
